@@ -8,7 +8,7 @@ from collections.abc import Sequence
 from dataclasses import dataclass, Field, MISSING
 from datetime import datetime
 from functools import cached_property, lru_cache
-from types import NoneType
+from types import NoneType, UnionType
 from copy import copy
 
 from typing_extensions import (
@@ -153,9 +153,10 @@ class WrappedField:
     @cached_property
     def is_optional(self):
         origin = get_origin(self.resolved_type)
-        if origin not in [Union, Optional]:
+        # `T | None` (PEP 604) has the origin types.UnionType, `Optional[T]` / `Union[T, None]` has typing.Union
+        if origin not in [Union, Optional, UnionType]:
             return False
-        if origin == Union:
+        if origin in [Union, UnionType]:
             args = get_args(self.resolved_type)
             return len(args) == 2 and NoneType in args
         return True
